@@ -60,6 +60,7 @@ type Clause struct {
 type LoopContract struct {
 	Invariants []*Clause
 	Decreases  []Expr
+	Exhaustive bool   // the loop is left only at its end or by returning from the function (no break)
 	ReadsInput string // non-empty: terminates because every iteration consumes input (inventoried assumption)
 }
 
@@ -735,6 +736,9 @@ func parseSpecFile(path string) (*SpecFile, error) {
 			cur.Sets = append(cur.Sets, gs)
 		case "loop":
 			f := strings.Fields(c.rest)
+			if len(f) == 2 && f[1] == "exhaustive" {
+				f = append(f, "")
+			}
 			if len(f) < 3 {
 				return nil, fail(c, "loop clause too short")
 			}
@@ -766,6 +770,9 @@ func parseSpecFile(path string) (*SpecFile, error) {
 					}
 					lc.Decreases = append(lc.Decreases, e)
 				}
+			case "exhaustive":
+				// loop K exhaustive: every element is visited unless the function returns
+				lc.Exhaustive = true
 			case "reads-input":
 				// loop K reads-input <why>: every iteration consumes input from a reader that
 				// eventually returns an error (end of input, deadline): an assumption, inventoried
